@@ -849,6 +849,8 @@ func (cw *concWorld) porcupineModel() porcupine.Model {
 					return true, priv
 				}
 				return true, st
+			case "truncabort":
+				return out.Bad == "", st // an aborted transaction: no effect at any point of the order
 			default:
 				return cw.stepRead(st, op, out), st
 			}
